@@ -10,6 +10,15 @@
 // ready the task yields.  The two copy directions, the interval and the context are stubs whose readiness and results
 // are chosen symbolically per scheduling round by the executor in the harness.
 #![allow(dead_code, unused_variables, unused_macros, static_mut_refs, unused_imports, unused_mut, unused_parens)]
+// `tracing::level!(..)` written with its path by an edit keeps compiling (log statements have no effect on the checks)
+pub mod tracing {
+    macro_rules! trace { ($($t:tt)*) => { () } }
+    macro_rules! debug { ($($t:tt)*) => { () } }
+    macro_rules! info { ($($t:tt)*) => { () } }
+    macro_rules! warn_ { ($($t:tt)*) => { () } }
+    macro_rules! error { ($($t:tt)*) => { () } }
+    pub(crate) use {trace, debug, info, warn_ as warn, error};
+}
 use std::future::Future;
 use std::pin::Pin;
 use std::task::{Context as TaskCx, Poll};
